@@ -126,6 +126,11 @@ type Parser struct {
 	// the other, in the expressions which are being parsed: every one
 	// of them makes the tree we build one level deeper.
 	links int
+
+	// below is the depth of the deepest tree among the expressions which
+	// were completed inside the expression that is being parsed: a chain
+	// that is built on top of a finished chain is as deep as both together.
+	below int
 }
 
 // MaxNesting is the deepest nesting of expressions and blocks the parser
@@ -363,6 +368,20 @@ func (p *Parser) parseExpression(precedence int) ast.Expression {
 		p.errors = append(p.errors, msg)
 		return nil
 	}
+
+	// The tree we return is as deep as the deepest tree among our operands
+	// (every nested call leaves its depth in p.below when it returns) plus
+	// one level for each operator of ours; whoever called us is told in turn.
+	outer := p.below
+	p.below = 0
+	built := 0
+	defer func() {
+		if built < outer {
+			built = outer
+		}
+		p.below = built
+	}()
+
 	leftExp := prefix()
 
 	// Look for errors
@@ -371,6 +390,7 @@ func (p *Parser) parseExpression(precedence int) ast.Expression {
 		p.errors = append(p.errors, msg)
 		return nil
 	}
+	built = p.below + 1
 
 	chained := 0
 	defer func() { p.links -= chained }()
@@ -393,6 +413,13 @@ func (p *Parser) parseExpression(precedence int) ast.Expression {
 
 		p.nextToken()
 		leftExp = infix(leftExp)
+
+		// A finished chain below a chain is as bad as one long chain.
+		built = p.below + chained + 1
+		if built > MaxChain {
+			p.errors = append(p.errors, fmt.Sprintf("the expression around %s is nested too deeply, the limit is %d", p.curToken.Position(), MaxChain))
+			return nil
+		}
 
 		// Look for errors
 		if leftExp == nil {
